@@ -92,9 +92,11 @@ func hopByHopHeaders(respHeader http.Header) map[string]struct{} {
 		// Also see net/http/response.go "respExcludeHeader" for additional excluded headers.
 	}
 	// Fields listed in the Connection header field (all of its field lines)
+	// (connection options are tokens: the list is split at every comma, so a
+	// stray quote in one member cannot hide the members after it)
 	for _, line := range respHeader.Values("Connection") {
-		for field := range TrimmedCSVCanonicalSeq(line) {
-			m[field] = struct{}{}
+		for field := range fieldNameSeq(line) {
+			m[http.CanonicalHeaderKey(field)] = struct{}{}
 		}
 	}
 	return m
